@@ -27,6 +27,9 @@ Structured ==
   \* two touched declarations (two changes of one patch) around an untouched, commented one
   \cup Pick(PerClass, {[hdr |-> NoHdr, decls |-> <<t1, u, t2>>] : t1, t2 \in {t \in T : t.touch = "decl" /\ t.doc = "none" /\ t.trail = "none"},
                                                                      u \in {x \in U : x.inner = "eol" /\ x.gap = "free"}})
+  \* two rewritten expression sites (one change, two matches) in functions around an untouched, commented declaration
+  \cup Pick(PerClass, {[hdr |-> NoHdr, decls |-> <<t1, u, t2>>] : t1, t2 \in {t \in T : t.touch = "expr" /\ t.kind = "func" /\ t.trail = "none"},
+                                                                     u \in {x \in U : x.doc # "none" \/ x.inner = "eol" \/ x.trail # "none"}})
 VARIABLE emitted
 EmitInit == emitted = ndJsonSerialize(OutFile, SetToSeq(Sample \cup Structured))
 EmitSpec == EmitInit /\ [][UNCHANGED emitted]_emitted
